@@ -8,6 +8,6 @@ Extraction "object_model.ml"
   name_inner name_eqb comp_enc bytes_cmp
   ms_init bs_init ss_init ms_step bs_step sp_step id_order mt_get_admissible b_get mt_nchildren spec_get_ok spec_scan_len boltIterCap
   cl_init step consume_log_ok log_chunks completions
-  run_checkb wf_objectb quiescentb
+  run_checkb wf_objectb quiescentb b_put
   typVersion be_val two64
   N.add N.mul N.of_nat N.to_nat N.eqb N.ltb N.div N.modulo.
